@@ -116,6 +116,9 @@ class Worker(object):
         def node(nid):
             if nid not in nodes:
                 nodes[nid] = NodeHandle(self.repo, mode)
+                names = (run.get("cfg") or {}).get("names")
+                if names:
+                    nodes[nid].call("batch", [["names", names]], False)
                 if want_abstract:
                     trace["init_abstract"][nid] = nodes[nid].call("abstract")
             return nodes[nid]
